@@ -109,8 +109,10 @@ class guard:
     """watchdog for one virtual-time run: a run that spins or blocks (e.g. the datetime-clock spin branch of
     VirtualTimeScheduler.start re-acquiring its lock) is interrupted by SIGALRM and reported as raised 'HANG'"""
 
-    def __init__(self, seconds=10.0):
-        self.seconds = seconds
+    hangs = 0          # after a few interrupted runs in one process the remaining ones are cut short (1 s) to bound the wall time
+
+    def __init__(self, seconds=4.0):
+        self.seconds = seconds if guard.hangs < 5 else 1.0
 
     def __enter__(self):
         import signal
@@ -119,6 +121,7 @@ class guard:
         self.on = threading.current_thread() is threading.main_thread()
         if self.on:
             def handler(signum, frame):
+                guard.hangs += 1
                 raise Hang()
 
             self.old = signal.signal(signal.SIGALRM, handler)
